@@ -434,4 +434,113 @@ func init() {
 	}
 }
 
+const lossyPkg = repoModule + "/internal/lossy"
+
+func init() {
+	registry["C17"] = func(tier string) []*Job {
+		var js []*Job
+		js = append(js, mk("c17.ring.seq", lossyPkg, "ZZ_C17_RingSeq", map[string]int{"canary": 0}, func(b *Bounds) { b.Unwind = 20 }))
+		c := mk("c17.ring.seq.canary", lossyPkg, "ZZ_C17_RingSeq", map[string]int{"canary": 1}, func(b *Bounds) { b.Unwind = 20 })
+		c.Canary = "c17.seq.canary"
+		js = append(js, c)
+		pre := 2
+		if tier == "thorough" {
+			pre = 3
+		}
+		for _, prefill := range []int{0, 15} {
+			j := mk(sprintf("c17.ring.par.p2.prefill%d", prefill), lossyPkg, "ZZ_C17_RingPar",
+				map[string]int{"producers": 2, "adds_per_producer": 1, "prefill": prefill, "canary": 0},
+				func(b *Bounds) { b.Unwind = 20; b.Preempt = pre; b.Race = true; b.MaxPaths = 2000000; b.MaxWallS = 1500 })
+			js = append(js, j)
+		}
+		if tier == "thorough" {
+			js = append(js, mk("c17.ring.par.p2x2", lossyPkg, "ZZ_C17_RingPar", map[string]int{"producers": 2, "adds_per_producer": 2, "prefill": 14, "canary": 0},
+				func(b *Bounds) { b.Unwind = 20; b.Preempt = 2; b.Race = true; b.MaxPaths = 3000000; b.MaxWallS = 2400 }))
+			js = append(js, mk("c17.ring.par.p3", lossyPkg, "ZZ_C17_RingPar", map[string]int{"producers": 3, "adds_per_producer": 1, "prefill": 14, "canary": 0},
+				func(b *Bounds) { b.Unwind = 20; b.Preempt = 2; b.Race = true; b.MaxPaths = 3000000; b.MaxWallS = 2400 }))
+		}
+		c = mk("c17.ring.par.canary", lossyPkg, "ZZ_C17_RingPar", map[string]int{"producers": 2, "adds_per_producer": 1, "prefill": 0, "canary": 1},
+			func(b *Bounds) { b.Unwind = 20; b.Preempt = 1; b.Race = true })
+		c.Canary = "c17.par.canary"
+		js = append(js, c)
+		js = append(js, mk("c17.striped.seq", lossyPkg, "ZZ_C17_StripedSeq", map[string]int{"maxlen": 4, "adds": 4}, func(b *Bounds) { b.Unwind = 20; b.Procs = 1 }))
+		for _, p := range []int{0, 1} {
+			js = append(js, mk(sprintf("c17.striped.par.pre%d", p), lossyPkg, "ZZ_C17_StripedPar", map[string]int{"maxlen": 4, "pre": p},
+				func(b *Bounds) { b.Unwind = 20; b.Preempt = pre; b.Race = true; b.MaxPaths = 2000000; b.MaxWallS = 1500 }))
+		}
+		for _, j := range js {
+			j.Prefer = "bits"
+		}
+		return js
+	}
+}
+
+const queuePkg = repoModule + "/internal/deque/queue"
+
+func init() {
+	registry["C16"] = func(tier string) []*Job {
+		var js []*Job
+		js = append(js, mk("c16.arith", queuePkg, "ZZ_C16_Arith", nil, func(b *Bounds) { b.Unwind = 8 }))
+		steps := 6
+		if tier == "thorough" {
+			steps = 10
+		}
+		for caps := 0; caps < 4; caps++ {
+			js = append(js, mk(sprintf("c16.seq.caps%d", caps), queuePkg, "ZZ_C16_Seq", map[string]int{"caps": caps, "steps": steps, "canary": 0},
+				func(b *Bounds) { b.Unwind = 40; b.MaxPaths = 1000000; b.MaxWallS = 1500 }))
+		}
+		c := mk("c16.seq.canary", queuePkg, "ZZ_C16_Seq", map[string]int{"caps": 0, "steps": 2, "canary": 1}, func(b *Bounds) { b.Unwind = 40 })
+		c.Canary = "c16.seq.canary"
+		js = append(js, c)
+		pre := 2
+		type pc struct{ caps, prefill, p1, p2, pops int }
+		pcs := []pc{{0, 1, 2, 1, 2}, {0, 0, 1, 1, 1}}
+		if tier == "thorough" {
+			pcs = append(pcs, pc{1, 1, 2, 2, 3}, pc{2, 3, 1, 1, 1}, pc{0, 3, 1, 1, 2})
+		}
+		for _, x := range pcs {
+			js = append(js, mk(sprintf("c16.par.caps%d.pre%d.p%d_%d.pops%d", x.caps, x.prefill, x.p1, x.p2, x.pops), queuePkg, "ZZ_C16_Par",
+				map[string]int{"caps": x.caps, "prefill": x.prefill, "p1": x.p1, "p2": x.p2, "pops": x.pops, "canary": 0},
+				func(b *Bounds) { b.Unwind = 40; b.Preempt = pre; b.Race = true; b.MaxPaths = 3000000; b.MaxWallS = 1800 }))
+		}
+		c = mk("c16.par.canary", queuePkg, "ZZ_C16_Par", map[string]int{"caps": 0, "prefill": 0, "p1": 1, "p2": 1, "pops": 1, "canary": 1},
+			func(b *Bounds) { b.Unwind = 40; b.Preempt = 1; b.Race = true })
+		c.Canary = "c16.par.canary"
+		js = append(js, c)
+		for _, j := range js {
+			j.Prefer = "bits"
+		}
+		return js
+	}
+}
+
+func init() {
+	registry["C14"] = func(tier string) []*Job {
+		var js []*Job
+		pre := 2
+		type pc struct{ writers, cleaner, pending, preempt int }
+		pcs := []pc{{1, 0, 0, 2}, {1, 1, 0, 2}, {2, 0, 0, 2}, {1, 0, 1, 2}}
+		if tier == "thorough" {
+			pcs = []pc{{1, 0, 0, 3}, {1, 1, 0, 3}, {2, 0, 0, 3}, {1, 0, 1, 3}, {2, 1, 0, 2}, {2, 0, 1, 2}, {3, 0, 0, 2}}
+		}
+		_ = pre
+		for _, x := range pcs {
+			js = append(js, mk(sprintf("c14.protocol.w%d.cleaner%d.pending%d.pre%d", x.writers, x.cleaner, x.pending, x.preempt), rootPkg, "ZZ_C14_Protocol",
+				map[string]int{"writers": x.writers, "cleaner": x.cleaner, "pending": x.pending, "canary": 0},
+				func(b *Bounds) { b.Unwind = 140; b.Preempt = x.preempt; b.Race = true; b.MaxPaths = 5000000; b.MaxWallS = 2400 }))
+		}
+		c := mk("c14.protocol.canary", rootPkg, "ZZ_C14_Protocol", map[string]int{"writers": 1, "cleaner": 0, "pending": 0, "canary": 1},
+			func(b *Bounds) { b.Unwind = 140; b.Preempt = 1; b.Race = true })
+		c.Canary = "c14.canary"
+		js = append(js, c)
+		cp := 1
+		if tier == "thorough" {
+			cp = 2
+		}
+		js = append(js, mk(sprintf("c14.cache.max1.pre%d", cp), rootPkg, "ZZ_C14_Cache", nil,
+			func(b *Bounds) { b.Unwind = 140; b.Preempt = cp; b.Race = true; b.MaxPaths = 5000000; b.MaxWallS = 2400 }))
+		return js
+	}
+}
+
 func sprintf(f string, a ...interface{}) string { return fmt.Sprintf(f, a...) }
